@@ -320,6 +320,8 @@ def e2e_grid(big=False):
     from datashard.data_structures import Schema
     nan = float("nan")
     import datetime as _dt
+    import struct as _struct
+    F32_01 = _struct.unpack("f", _struct.pack("f", 0.1))[0]
     schema = Schema(schema_id=1, fields=[{"id": 1, "name": "k", "type": "long", "required": True},
                                          {"id": 2, "name": "c", "type": "double", "required": False},
                                          {"id": 3, "name": "s", "type": "string", "required": False},
@@ -343,6 +345,8 @@ def e2e_grid(big=False):
             {"k": 5, "c": 0.5, "s": "a", "i": 0, "b": False, "d": None, "t": TS(1970, 1, 1), "f": 1.5},
             {"k": 6, "c": 1.0, "s": L + "a", "i": 7, "b": True, "d": D(2000, 2, 29), "t": TS(2024, 1, 1, 12, 0, 0, 1751), "f": 0.25},
             {"k": 7, "c": 2.0, "s": L + "z", "i": 7, "b": True, "d": D(2000, 2, 29), "t": TS(2024, 1, 1, 12, 0, 0, 1749), "f": 0.75},
+            # 0.1 is not representable in 32 bits: the column stores float32(0.1) = 0.100000001490116..., which is NOT equal to the double 0.1
+            {"k": 8, "c": 0.1, "s": "zz", "i": 9, "b": None, "d": None, "t": None, "f": F32_01},
         ]
         if big:
             blank = {"s": None, "i": None, "b": None, "d": None, "t": None, "f": None}
@@ -360,7 +364,7 @@ def e2e_grid(big=False):
         conds = []
         lits_by_col = (("c", [0.5, 2500.0, 0.25]),) if big else (("c", [0.5, 0.0, float("inf")]), ("s", ["a", "", "é", L + "z", L + "m"]), ("i", [0, 7, 2 ** 53, 2 ** 53 + 1]),
                        ("d", [D(2024, 1, 1), D(2000, 2, 29), D(1969, 12, 31)]),
-                       ("t", [TS(2024, 1, 1, 12, 0, 0, 1750), TS(2024, 1, 1, 12, 0, 0, 1000), TS(1970, 1, 1)]), ("f", [0.5, 0.25, 16777216.0]))
+                       ("t", [TS(2024, 1, 1, 12, 0, 0, 1750), TS(2024, 1, 1, 12, 0, 0, 1000), TS(1970, 1, 1)]), ("f", [0.5, 0.25, 16777216.0, 0.1, F32_01]))
         for col, lits in lits_by_col:
             for v in lits:
                 for op in ("==", "!=", "<", "<=", ">", ">="):
